@@ -244,9 +244,21 @@ static void mode_trace(void)
 }
 
 /* ================================================================== observe */
+/* while an entry's resolver is asking CPUID/XGETBV, its slot must still hold the resolver stub: a value stored before the
+ * decision is final is a binding other threads can already take (and it may name code this configuration cannot run) */
+static void *watch_entry; static void *watch_seen; static int watch_hits; static char watch_name[128];
+static void on_cpu_query(void *resolver_pc)
+{
+        if (!watch_entry) return;
+        long off; const char *who = sym_containing(resolver_pc, &off);
+        if (strcmp(who, watch_name)) return;            /* some other entry's resolver (called by the workload) */
+        if (disp_is_resolved(watch_entry)) { if (!watch_seen) watch_seen = disp_target_of(watch_entry); watch_hits++; }
+}
+
 static void mode_observe(int thorough)
 {
         load_reqs(arg_str("--req", "/nonexistent"));
+        isal_verif_hook_cb = on_cpu_query;
         enumerate(thorough);
         priv_t *p = priv_new();
         uint64_t refres[80]; int have_ref[80] = { 0 };
@@ -273,8 +285,16 @@ static void mode_observe(int thorough)
                         if (is_aes && !c->sse41) continue;
                         uint64_t x0 = isal_verif_vcpu.n_xgetbv_no_osxsave;
                         LABEL("%s under config %08x", sym_name(s->entry), cfg_bits(c));
+                        watch_entry = s->entry; watch_seen = NULL; watch_hits = 0; snprintf(watch_name, sizeof watch_name, "%s_dispatch_init", sym_name(s->entry));
                         uint64_t res = call_entry(s, p, 42);
+                        watch_entry = NULL;
                         cur_label[0] = 0;
+                        if (watch_seen) {
+                                const char *wn = sym_name(watch_seen); uint32_t wneed = 0; int known = req_of(wn, &wneed);
+                                snprintf(key, sizeof key, "transient-binding %s", sym_name(s->entry));
+                                out_viol("C12", key, rb, "%s: while its resolver was still querying the CPU the slot already held %s%s (final binding %s); a concurrent first caller would run it | %s", sym_name(s->entry), wn,
+                                         known && (wneed & ~available(c)) ? ", which this configuration cannot execute" : "", sym_name(disp_target_of(s->entry)), cs);
+                        }
                         out_count("bindings_observed", 1);
                         void *target = disp_target_of(s->entry);
                         const char *tn_ = sym_name(target), *en = sym_name(s->entry);
